@@ -205,7 +205,7 @@ def c06(tier, seed):
                   "executed at 4 heap states (fresh, busy, busier, after frees) of a generated history, plus well-formed requests of that history; after every call: NULL/errno/out-parameter, "
                   "allocated-block count unchanged, victim block of realloc untouched, only EOVERFLOW/ENOMEM reported; non-trivial = >=4 heap states and >=8000 malformed calls; distinct = (variant, op hash)",
                   lambda r, c: r.get("malformed", {}).get("heap_states", 0) >= 4 and r.get("malformed", {}).get("calls", 0) >= 8000, cov,
-                  SEQ_ASSUME + ["the throwing mi_new forms are not driven: in a C build of mimalloc they abort() by design when no std::new_handler can be installed"])
+                  SEQ_ASSUME + ["the throwing mi_new forms are driven with a std::new_handler installed (it is called, then uninstalls itself or jumps out); without a handler a C build of mimalloc abort()s by design"])
 
 @check("C17")
 def c17(tier, seed):
